@@ -305,6 +305,13 @@ fn process_dir(
             }
 
             matcher.matches(&entry, &mut matcher_io);
+            if current_dir.as_deref() == Some(entry.path()) {
+                // "/" is run from itself, but it is not one of its own entries:
+                // they are not put into the same invocation.
+                if let Some(dir) = current_dir.take() {
+                    matcher.finished_dir(dir.as_path(), &mut matcher_io);
+                }
+            }
             match matcher_io.exit_code() {
                 0 => {}
                 code => ret = code,
